@@ -1023,3 +1023,21 @@ package ircserver
 //@   loop range snapshot.Config.Irc.Services
 //@     invariant len(operators) == len(snapshot.Config.Irc.Operators) && (forall k int :: 0 <= k && k < len(operators) ==> operators[k].Name == snapshot.Config.Irc.Operators[k].Name && operators[k].Password == snapshot.Config.Irc.Operators[k].Password)
 //@     invariant 0 - 1 <= rangeindex && rangeindex < len(snapshot.Config.Irc.Services) && len(services) == len(snapshot.Config.Irc.Services) && (forall k int :: 0 <= k && k <= rangeindex ==> services[k].Password == snapshot.Config.Irc.Services[k].Password)
+
+// The nickname index is rebuilt, not stored: after loading, a nickname maps
+// to the session that owns it, and only sessions that have a nickname are
+// indexed (wfNicks, the invariant every command handler relies on). Two
+// sessions of a snapshot never own the same nickname (wfOwner on the side of
+// the writer).
+//@ pred wfSnapNicks(S *pb.Snapshot) = forall a int, b int {S.Sessions[a], S.Sessions[b]} :: 0 <= a && a < b && b < len(S.Sessions) && S.Sessions[a].Nick != "" && S.Sessions[b].Nick != "" ==> NickToLower(S.Sessions[a].Nick) != NickToLower(S.Sessions[b].Nick)
+//@ func IRCServer.Unmarshal
+//@   requires fresh-index: (forall n lcNick :: !(n in i.nicks)) && len(i.serverSessions) == 0
+//@   assume@after proto.Unmarshal#0 : written-by-marshal-nicks: wfSnapNicks(addrof(snapshot))
+//@   loopinv snapnicks: wfSnapNicks(addrof(snapshot))
+//@   assert@return snapshot.LastIncludedIndex, nil#0 : nicks: wfNicksLoaded(i)
+//@   assert@return snapshot.LastIncludedIndex, nil#0 : owner: forall x robust.Id :: x in i.sessions && i.sessions[x].Nick != "" ==> NickToLower(i.sessions[x].Nick) in i.nicks && i.nicks[NickToLower(i.sessions[x].Nick)] == i.sessions[x]
+//@   loop range snapshot.Sessions
+//@     invariant nicks: wfNicksLoaded(i)
+//@     invariant owner: forall k int :: 0 <= k && k <= rangeindex && snapshot.Sessions[k].Nick != "" ==> NickToLower(snapshot.Sessions[k].Nick) in i.nicks && i.nicks[NickToLower(snapshot.Sessions[k].Nick)] == i.sessions[snapId(snapshot.Sessions[k])]
+//@     invariant back: forall n lcNick :: n in i.nicks ==> (exists k int :: 0 <= k && k <= rangeindex && snapshot.Sessions[k].Nick != "" && NickToLower(snapshot.Sessions[k].Nick) == n)
+//@ pred wfNicksLoaded(i *IRCServer) = forall n lcNick :: n in i.nicks ==> i.nicks[n] != nil && i.nicks[n].Id in i.sessions && i.sessions[i.nicks[n].Id] == i.nicks[n] && NickToLower(i.nicks[n].Nick) == n && i.nicks[n].Nick != ""
